@@ -240,7 +240,7 @@ def main(argv):
         out = getattr(mod, argv[2])(*argv[3:])
         out.setdefault('wall_s', round(time.time() - t0, 2))
         print(json.dumps(out))
-        return 1 if out.get('fail') else 0
+        return 1 if (out.get('fail') or out.get('fails')) else 0
     raise SystemExit('usage')
 
 
